@@ -2,6 +2,7 @@ import J5V.Go.Hex
 import J5V.Pipe.Service
 import J5V.Pipe.Walk
 import J5V.Pipe.List
+import J5V.Pipe.Swagger
 /-! Line-protocol driver for the pipe cluster (C16), core only. One op per input line, one result
 per output line; see `/verif/harness/PROTOCOL-pipe.md`.
 
@@ -226,13 +227,28 @@ partial def fieldOf (nodes : List NamedNode) (pfx parent field : S) : TType → 
   | .ione _ => .oneof (indexOf nodes (pfx ++ parent ++ "_" ++ camel field))
   | .ienum _ => .enum (indexOf nodes (pfx ++ parent ++ "_" ++ camel field))
 
-def propOf (nodes : List NamedNode) (pfx parent : S) (p : TProp) : Prop' :=
+/-- options of the enum a type refers to, as the compiler declares them (implicit zero value first) -/
+def enumOptions (schemas : List TSchema) : TType → List S
+  | .ienum opts => "UNSPECIFIED" :: opts
+  | .ref "e" n => match schemas.find? (·.name == n) with
+    | some sc => "UNSPECIFIED" :: sc.opts
+    | none => []
+  | _ => []
+
+def propOf (schemas : List TSchema) (nodes : List NamedNode) (pfx parent : S) (p : TProp) : Prop' :=
   let (name, fl, t) := p
   let rules : LRules := { filter := hasFlag fl 'f', sort := hasFlag fl 's', search := hasFlag fl 'q' }
-  { name := strOf name, field := fieldOf nodes pfx parent name t, tag := (listEffect (lkindOf t) rules).toTag }
+  -- flags d / D: default filter = first declared option / a name that is no option
+  let defaults : List S :=
+    if hasFlag fl 'D' then ["BOGUS"]
+    else if hasFlag fl 'd' then ((enumOptions schemas t).drop 1).take 1 else []
+  let bad := lkindOf t == .enum && rules.filter
+    && !defaultFiltersOk ((enumOptions schemas t).map strOf) (defaults.map strOf)
+  { name := strOf name, field := fieldOf nodes pfx parent name t,
+    tag := (listEffect (lkindOf t) rules).toTag + (if bad then 8 else 0) }
 
-def graphOf (nodes : List NamedNode) : Graph :=
-  nodes.map fun n => { kind := n.kind, props := n.props.map (propOf nodes n.pfx n.parent) }
+def graphOf (schemas : List TSchema) (nodes : List NamedNode) : Graph :=
+  nodes.map fun n => { kind := n.kind, props := n.props.map (propOf schemas nodes n.pfx n.parent) }
 
 /-! ## summary -/
 
@@ -289,10 +305,23 @@ def declOf (sv : TService) : Option ServiceDecl := do
 
 def sortStrings (xs : List S) : List S := (xs.toArray.qsort (· < ·)).toList
 
+/-- does the list walk of a method reach a filterable enum with a default filter that is no option -/
+def listHitsBadDefault (nodes : List NamedNode) (g : Graph) (m : TMethod) : Bool :=
+  m.list && match m.resp with
+  | (_, _, t) :: _ =>
+    match leafType t with
+    | .ref _ item =>
+      match walk g (indexOf nodes item) with
+      | some (.ok vs) => vs.any (fun v => tagBadDefault v.tag)
+      | _ => false
+    | _ => false
+  | [] => false
+
 def chainLine (sp : TSpec) : S :=
   if sp.nEntities > 0 then "skip" else
   let nodes := allNodes sp
-  let g := graphOf nodes
+  let g := graphOf sp.schemas nodes
+  if sp.services.any (fun sv => sv.methods.any (listHitsBadDefault nodes g)) then "fail client" else
   let pkgSub := strOf (sp.pkg ++ ".service")
   let svcs := sp.services.map fun sv =>
     match declOf sv with
@@ -305,8 +334,8 @@ def chainLine (sp : TSpec) : S :=
       | .err e => " [model-err:" ++ e ++ "]"
       | .panic w => " [model-panic:" ++ w ++ "]"
   let roots : List Field := sp.services.foldl (fun acc sv => sv.methods.foldl (fun acc m =>
-    acc ++ (m.req.map fun p => (propOf nodes "service." (m.name ++ "Request") p).field)
-        ++ (if m.hasResp then m.resp.map fun p => (propOf nodes "service." (m.name ++ "Response") p).field else [])) acc) []
+    acc ++ (m.req.map fun p => (propOf sp.schemas nodes "service." (m.name ++ "Request") p).field)
+        ++ (if m.hasResp then m.resp.map fun p => (propOf sp.schemas nodes "service." (m.name ++ "Response") p).field else [])) acc) []
   let keys := match collect g roots with
     | some is => csv (sortStrings (is.filterMap fun i => (nodes[i]?).map (·.key))) "-"
     | none => "collect-fuel"
@@ -391,6 +420,31 @@ def graphOp (toks : List S) : S :=
     | some l, some k => "ok L:" ++ l ++ " K:" ++ k
     | _, _ => "err"
 
+/-- swag op: prefix tree of field kinds -/
+partial def pSField : P SField := do
+  match (← tok) with
+  | "any" => pure .any | "str" => pure .str | "int" => pure .int | "float" => pure .float
+  | "bool" => pure .bool | "bytes" => pure .bytes | "dec" => pure .decimal | "date" => pure .date
+  | "ts" => pure .timestamp | "key" => pure .key
+  | "eref" => pure .enumRef | "einl" => pure .enumInline | "eunset" => pure .enumUnset
+  | "oref" => pure .objRef | "ounset" => pure .objUnset
+  | "uref" => pure .oneofRef | "uunset" => pure .oneofUnset
+  | "unset" => pure .unset | "nil" => pure .nil
+  | "arr" => do pure (.array (← pSField))
+  | "map" => do pure (.map (← pSField))
+  | "oinl" => do let n ← num; pure (.objInline (← rep n pSField))
+  | "uinl" => do let n ← num; pure (.oneofInline (← rep n pSField))
+  | _ => failure
+
+def swagOp (toks : List S) : S :=
+  match pSField.run toks with
+  | some (f, []) =>
+    match convertSchema f with
+    | .ok t => "ok " ++ t
+    | .err _ => "err"
+    | .panic _ => "panic"
+  | _ => "bad-op"
+
 def step (line : S) : S :=
   match line.trimAscii.toString.splitOn " " with
   | "chain" :: rest =>
@@ -428,6 +482,7 @@ def step (line : S) : S :=
     | some svc, some m, some i, some o => nameOp svc m i o
     | _, _, _, _ => "bad-op"
   | "graph" :: rest => graphOp rest
+  | "swag" :: rest => swagOp rest
   | _ => "bad-op"
 
 partial def loop (h : IO.FS.Stream) (out : IO.FS.Stream) : IO Unit := do
